@@ -2,6 +2,7 @@ package checks
 
 import (
 	"errors"
+	"fmt"
 	"strconv"
 	"strings"
 
@@ -317,6 +318,29 @@ func evalC03(c *Ctx, cs *Case) {
 			}
 			return nil
 		})
+		// leaving the iterator after k+1 visits yields the first k+1 rows of the callback walk
+		for _, k := range []int{0, len(cur.rows) / 2} {
+			if k >= len(cur.rows)-1 {
+				continue
+			}
+			var part []model.Row
+			po := Guard(func() error {
+				for wn, err := range gtree.WalkIterFromRoot(g, BranchOptions(3)...) {
+					if err != nil {
+						return err
+					}
+					part = append(part, model.Row{Row: wn.Row(), Branch: wn.Branch(), Name: wn.Name(), Level: int(wn.Level()), Path: wn.Path(), HasChild: wn.HasChild()})
+					if len(part) == k+1 {
+						break
+					}
+				}
+				return nil
+			})
+			c.Eval(gen.HashString(fkey+"\x00iterprefix"+strconv.Itoa(order*100+k)), nontrivial)
+			if po.Panic != nil || po.Err != nil || !RowsEqual(part, cur.rows[:k+1]) {
+				viol("WalkIterFromRoot", "fromroot.iter-prefix-differs", "", map[string]any{"order": order, "k": k, "panic": fmt.Sprint(po.Panic), "err": errStr(po.Err)})
+			}
+		}
 		c.Eval(gen.HashString(fkey+"\x00walk"+strconv.Itoa(order)), nontrivial)
 		if !RowsEqual(cur.iterRows, cur.rows) {
 			viol("WalkIterFromRoot", "fromroot.iter-differs-from-walk", "", map[string]any{"order": order})
